@@ -1576,6 +1576,184 @@ example :
 #print axioms debug_filtering_off_reports_nothing
 #print axioms debug_blocked_no_upstream
 
+/-! ## Faults on the way (round 4) -/
+
+/-- The upstream made total: a missing reply reads as an empty SERVFAIL (never used when it matters:
+`serveFaulty` writes nothing when the reply that is needed is missing). -/
+def totalUp (up : Host → QType → Option Msg) : Host → QType → Msg :=
+  fun h q => (up h q).getD { rcode := 2, ans := [], soa := Option.none }
+
+theorem fault_writes_nothing (e : Env) (up : Host → QType → Option Msg) (host : Host) (qt : QType)
+    (cancelled : Bool)
+    (h : cancelled = true ∨ up (askedName e host qt) qt = Option.none) :
+    serveFaulty e cancelled up host qt = Option.none := by
+  unfold serveFaulty
+  rcases h with h | h
+  · simp [h]
+  · cases cancelled <;> simp [h]
+
+theorem no_fault_is_serve (e : Env) (up : Host → QType → Msg) (host : Host) (qt : QType) :
+    serveFaulty e false (fun h q => some (up h q)) host qt = some (serve { e with upstream := up } host qt) := by
+  unfold serveFaulty
+  simp
+
+theorem faulty_answer_is_serve (e : Env) (cancelled : Bool) (up : Host → QType → Option Msg)
+    (host : Host) (qt : QType) (m : Msg) (h : serveFaulty e cancelled up host qt = some m) :
+    m = serve { e with upstream := totalUp up } host qt := by
+  unfold serveFaulty at h
+  cases cancelled
+  · simp only [Bool.false_eq_true, ↓reduceIte] at h
+    split at h
+    · cases h
+    · injection h with h
+      exact h.symm
+  · simp at h
+
+theorem faulty_blocked_no_upstream (e : Env) (cancelled : Bool) (up : Host → QType → Option Msg)
+    (host : Host) (qt : QType) (m : Msg) (h : serveFaulty e cancelled up host qt = some m)
+    (hb : Blocked { e with upstream := totalUp up } host qt) :
+    NoUpstream m ∧ m = (blockedResp e.mode e.ttl host qt).getD blockedFallback := by
+  have hm := faulty_answer_is_serve e cancelled up host qt m h
+  subst hm
+  exact ⟨blocked_no_upstream _ host qt hb, serve_blocked _ host qt hb⟩
+
+/-! ## Production wiring (round 4) -/
+
+theorem own_group_decides (w : Wiring) (st : Storage) (ttl : Int) (sg id : String) (g : GroupYaml)
+    (h1 : w.serverGroups.lookup sg = some id) (h2 : w.groups.lookup id = some g) :
+    w.server st ttl sg = some { st := st, mode := .nullIP, ttl := durSecs ttl, grp := g.toPCfg } := by
+  simp [Wiring.server, Wiring.groupOf, h1, h2]
+
+theorem other_groups_irrelevant (w : Wiring) (st : Storage) (ttl : Int) (sg id id' : String)
+    (g' : GroupYaml) (h1 : w.serverGroups.lookup sg = some id) (hne : id' ≠ id) :
+    (w.setGroup id' g').server st ttl sg = w.server st ttl sg := by
+  have hl := lookup_setGroup_ne w.groups id id' g' hne
+  unfold Wiring.server Wiring.groupOf Wiring.setGroup
+  simp only [h1, Option.bind_some]
+  rw [hl]
+
+/-- A filter that the environment switches off for the whole process is in force for nobody: the
+storage the builder creates gives every configuration exactly the request verdict it would get from
+the full storage with that switch turned off in the configuration itself. -/
+theorem env_off_is_switch_off_request (sw : EnvSw) (st : Storage) (p : PCfg) (host : Host) (qt : QType) :
+    filterRequest (assemble (builtStorage sw (st.sb.repl, st.sb.replIP) (st.adult.repl, st.adult.replIP) st) p) host qt =
+    filterRequest (assemble { st with newReg := { st.newReg with repl := st.sb.repl, replIP := st.sb.replIP } } (maskPCfg sw p)) host qt := by
+  obtain ⟨a, b, c, d, e, f⟩ := sw
+  unfold filterRequest
+  have hrl : ruleListVerdict (assemble (builtStorage ⟨a, b, c, d, e, f⟩ (st.sb.repl, st.sb.replIP) (st.adult.repl, st.adult.replIP) st) p) host qt =
+      ruleListVerdict (assemble { st with newReg := { st.newReg with repl := st.sb.repl, replIP := st.sb.replIP } } (maskPCfg ⟨a, b, c, d, e, f⟩ p)) host qt := by
+    have hnone : ∀ ids : List Nat, List.filterMap (fun _ => (none : Option (Nat × List Rule))) ids = [] := by
+      intro ids
+      induction ids <;> simp_all
+    unfold ruleListVerdict
+    cases d <;> simp [hnone, assemble, builtStorage, maskPCfg, PCfg.paused, Cfg.rewriteSources, Cfg.svcSources, pickKnown]
+  have hrf : firstSome (reqFilterVerdicts (assemble (builtStorage ⟨a, b, c, d, e, f⟩ (st.sb.repl, st.sb.replIP) (st.adult.repl, st.adult.replIP) st) p) host qt) =
+      firstSome (reqFilterVerdicts (assemble { st with newReg := { st.newReg with repl := st.sb.repl, replIP := st.sb.replIP } } (maskPCfg ⟨a, b, c, d, e, f⟩ p)) host qt) := by
+    unfold reqFilterVerdicts
+    simp only [firstSome_append]
+    have e1 := fun cond => firstSome_optV_none cond (emptyHash st.sb) (fun f => hashVerdict .safeBrowsing f host qt) (hashVerdict_empty _ _ _ _)
+    have e2 := fun cond => firstSome_optV_none cond (emptyHash st.adult) (fun f => hashVerdict .adult f host qt) (hashVerdict_empty _ _ _ _)
+    have e3 := fun cond => firstSome_optV_none cond (emptyHash st.newReg) (fun f => hashVerdict .newReg f host qt) (hashVerdict_empty _ _ _ _)
+    have e4 := fun cond => firstSome_optV_none cond ([] : List Rule) (fun rs => ssVerdict .genSS rs host qt) (ssVerdict_nil _ _ _)
+    have e5 := fun cond => firstSome_optV_none cond ([] : List Rule) (fun rs => ssVerdict .ytSS rs host qt) (ssVerdict_nil _ _ _)
+    have o0 : ∀ {α : Type} (x : α) (hv : α → Verdict), firstSome (optV (onlyIf false x) hv) = .none := by
+      intro α x hv
+      simp [onlyIf, optV, firstSome]
+    cases a <;> cases b <;> cases c <;> cases e <;> cases f <;>
+      simp only [assemble, builtStorage, maskPCfg, PCfg.paused, Bool.and_false, Bool.and_true, Bool.false_eq_true,
+        ↓reduceIte, e1, e2, e3, e4, e5, o0]
+  rw [hrl, hrf]
+
+/-- **yaml_group_has_no_custom_services_pause.**  A filtering group of the configuration file has no
+custom rules, no blocked services and no pause schedule: whatever the storage holds, its composite
+filter has no custom list and no service lists. -/
+theorem yaml_group_has_no_custom_services_pause (g : GroupYaml) (st : Storage) :
+    (assemble st g.toPCfg).custom = Option.none ∧ (assemble st g.toPCfg).svcs = [] := by
+  constructor
+  · simp [assemble, GroupYaml.toPCfg]
+  · simp [assemble, GroupYaml.toPCfg, pickKnown]
+
+/-- **production_anonymous_blocked_shape.**  In production the server's own constructor is always
+null IP with `filters.response_ttl`: a blocked A query of an anonymous requester on any server group
+is answered `0.0.0.0` with the whole seconds of that duration. -/
+theorem production_anonymous_blocked_shape (w : Wiring) (st : Storage) (ttl : Int) (sg : String) (srv : Server)
+    (up : Host → QType → Msg) (host : Host) (hs : w.server st ttl sg = some srv)
+    (hb : Blocked (envOf srv Option.none up) host qtA) :
+    serveReq srv Option.none up host qtA =
+      { rcode := 0, ans := [synthRR host qtA (durSecs ttl) "0.0.0.0"], soa := Option.none } := by
+  unfold Wiring.server at hs
+  cases hg : w.groupOf sg with
+  | none => simp [hg] at hs
+  | some g =>
+    simp only [hg, Option.map_some, Option.some.injEq] at hs
+    subst hs
+    unfold serveReq
+    rw [serve_blocked _ host qtA hb]
+    simp [envOf, ctorOf, blockedResp, qtA]
+
+/-- **blocked_query_needs_upstream** (observation, not a defect of the verdict): the next handler is
+called for a blocked query too, so when the upstream fails the blocked answer is not given (the
+server answers SERVFAIL without records instead). -/
+theorem blocked_query_needs_upstream :
+    ∃ (e : Env) (host : Host) (qt : QType) (up : Host → QType → Option Msg),
+      (∃ c l, selectFilter e.sw e.prof e.grp = some c ∧ filterRequest c host qt = .blocked l) ∧
+      serveFaulty e false up host qt = Option.none :=
+  ⟨{ sw := ⟨true, true, true⟩, prof := { custom := some [.net ["test"] false .any] }, grp := {}, mode := .nullIP, ttl := 10,
+     upstream := fun _ _ => { rcode := 0, ans := [], soa := Option.none } },
+   ["a", "test"], 1, fun _ _ => Option.none,
+   ⟨{ custom := some [.net ["test"] false .any] }, .custom, rfl, by decide⟩, by decide⟩
+
+/-! Non-vacuity of the round-4 theorems. -/
+
+def exWiring : Wiring :=
+  { groups := [("fg0", { rlEnabled := true, rlIds := [0] }), ("fg1", { sbEnabled := true, blockDangerous := true })]
+    serverGroups := [("sg0", "fg1"), ("sg1", "fg0")] }
+
+def exStorage : Storage :=
+  { lists := [(0, [.net ["a", "test"] false .any])]
+    sb := { hosts := [["b", "test"]], repl := [], replIP := some (true, "203.0.113.77") } }
+
+example : exWiring.server exStorage 1500000000 "sg0" =
+    some { st := exStorage, mode := .nullIP, ttl := 1, grp := (GroupYaml.toPCfg { sbEnabled := true, blockDangerous := true }) } :=
+  own_group_decides exWiring exStorage 1500000000 "sg0" "fg1" _ (by decide) rfl
+
+example : (exWiring.setGroup "fg0" {}).server exStorage 10 "sg0" = exWiring.server exStorage 10 "sg0" :=
+  other_groups_irrelevant exWiring exStorage 10 "sg0" "fg1" "fg0" {} (by decide) (by decide)
+
+-- the two server groups really behave differently: a.test is blocked on sg1 only
+def exUp : Host → QType → Msg := fun _ _ => { rcode := 0, ans := [], soa := Option.none }
+
+def exAnswers (sg : String) : Option Nat :=
+  (exWiring.server exStorage 10000000000 sg).map fun s => (serveReq s Option.none exUp ["a", "test"] 1).ans.length
+
+example : exAnswers "sg1" = some 1 ∧ exAnswers "sg0" = some 0 := by decide
+
+def exEnv : Env :=
+  { sw := ⟨false, false, false⟩, prof := {}, grp := {}, mode := .nullIP, ttl := 10, upstream := exUp }
+
+example : serveFaulty exEnv false (fun _ _ => Option.none) ["a", "test"] 1 = Option.none :=
+  fault_writes_nothing _ _ _ _ _ (Or.inr rfl)
+
+example : serveFaulty exEnv false (fun h q => some (exUp h q)) ["a", "test"] 1 = some (exUp ["a", "test"] 1) := by decide
+
+-- the environment really matters: with SAFE_BROWSING_ENABLED=0 the dangerous-domain filter is gone
+example : filterRequest (assemble (builtStorage { sb := false } (exStorage.sb.repl, exStorage.sb.replIP) (exStorage.adult.repl, exStorage.adult.replIP) exStorage)
+      { sbOn := true, dangerousOn := true }) ["b", "test"] 1 = .none ∧
+    filterRequest (assemble (builtStorage {} (exStorage.sb.repl, exStorage.sb.replIP) (exStorage.adult.repl, exStorage.adult.replIP) exStorage)
+      { sbOn := true, dangerousOn := true }) ["b", "test"] 1 = .hashResp .safeBrowsing true "203.0.113.77" := by
+  decide
+
+#print axioms fault_writes_nothing
+#print axioms no_fault_is_serve
+#print axioms faulty_answer_is_serve
+#print axioms faulty_blocked_no_upstream
+#print axioms own_group_decides
+#print axioms other_groups_irrelevant
+#print axioms env_off_is_switch_off_request
+#print axioms yaml_group_has_no_custom_services_pause
+#print axioms production_anonymous_blocked_shape
+#print axioms blocked_query_needs_upstream
+
 end Agd.Filter
 #print axioms Agd.Tie.TrC02.translation_complete
 #print axioms Agd.Tie.TrC02.blocked_never_upstream
